@@ -55,8 +55,8 @@ CLAIMS = {
   technique="static analysis: data/control-dependence (P-ORG) of key fields, field-effect sets and CFG must-follow/must-precede of invalidators on go/ssa",
   ref="DESIGN.md §4 C13"),
  "C14": dict(
-  text="Cache transparency and step order of FontMap, structurally: (R-INV) every writer of a field read by ResolveFace's miss path other than the key components (query, script) clears the rune LRU, and every writer of a field read by buildCandidates resets built, on every path through the write or in every caller up to the exported API; (R-KEY/hash) the LRU key hashes the query families and runeLRU.Get returns a hit only on the equal edge of an exact comparison of them; (R-STEPS) on the miss path buildCandidates runs first and the four documented searches occur in order on every path, each returning the face it finds before a later step, and every path of buildCandidates that sets built has run the substitution pass, the user-font pass and the aspect narrowing. Totality (non-nil result) and the substitution scoring are not decided.",
-  note="field-based effects; exempt fields (idempotent memos, scratch buffers, logger) are listed with reasons in sa/c13.go; the LRU key function itself is trusted to include query, script and rune",
+  text="Cache transparency and step order of FontMap, structurally: (R-INV) every writer of a field read by ResolveFace's miss path other than the key components clears the rune LRU — the key components being the fields ResolveFace passes to the runeLRU.KeyFor* constructor in a parameter that reaches the returned key, among which query and script must be —, and every writer of a field read by buildCandidates resets built, on every path through the write or in every caller up to the exported API; (R-KEY/hash) the LRU key hashes the query families and runeLRU.Get returns a hit only on the equal edge of an exact comparison of them; (R-STEPS) on the miss path buildCandidates runs first and the four documented searches occur in order on every path, each returning the face it finds before a later step, and every path of buildCandidates that sets built has run the substitution pass, the user-font pass and the aspect narrowing. Totality (non-nil result) and the substitution scoring are not decided.",
+  note="field-based effects; exempt fields (idempotent memos, scratch buffers, logger) are listed with reasons in sa/c13.go; the LRU key function is trusted to keep apart the values of the parameters that reach its result (data flow, not injectivity); a function that only forwards to another one is the same step",
   technique="static analysis: field-effect sets over the VTA call graph + CFG must-follow/must-precede of invalidators on go/ssa",
   ref="DESIGN.md §4 C14"),
  "C15": dict(
@@ -75,7 +75,7 @@ CLAIMS = {
   technique="static analysis: interprocedural origin (taint) tracking on go/ssa + VTA call-graph reachability (init-only / post-construction sets)",
   ref="DESIGN.md §4 C17"),
  "C18": dict(
-  text="Two structural clauses of the unsafe-to-break property: (R-PROP) in shaperOpentype.shape propagateFlags runs on every path to the exit and nothing that may write GlyphInfo.Mask (P-FX) runs after it, and Buffer.setGlyphFlags sets the scratch flag that enables propagation before any mask write; (R-UTB/exists) every function of the OpenType layout engine that reads neighbouring glyphs through a context primitive (skippingIterator.next/prev, matchInput/Backtrack/Lookahead) can reach, after that read, a call that marks the inspected range (unsafeToBreak*, mergeClusters*, or a helper reaching one), itself or in all its callers; (R-UTB/must) in those functions no path from the context read to a constant `return true` within the same loop iteration avoids every marking call; (R-MINCL) in Buffer.setGlyphFlags the cluster exempted from an interior flag is the result of a findMinCluster chain over exactly the ranges that receive the flag. That the marked range is the right one, and the script shapers' joining decisions, are NOT decided.",
+  text="Two structural clauses of the unsafe-to-break property: (R-PROP) in shaperOpentype.shape propagateFlags runs on every path to the exit and nothing that may write GlyphInfo.Mask (P-FX) runs after it, and Buffer.setGlyphFlags sets the scratch flag that enables propagation before any mask write; (R-UTB/exists) every function of the OpenType layout engine that reads neighbouring glyphs through a context primitive (skippingIterator.next/prev, matchInput/Backtrack/Lookahead) can reach, after that read, a call that marks the inspected range (unsafeToBreak*, mergeClusters*, or a helper reaching one), itself or in all its callers; (R-UTB/must) in those functions no path from the context read to a constant `return true` within the same loop iteration avoids every marking call; (R-MINCL) in Buffer.setGlyphFlags the cluster exempted from an interior flag is the result of a findMinCluster chain over exactly the ranges that receive the flag. (R-UTB/syllables) every function that calls a syllable finder iterates over the syllables on every path and flags each of them whole with unsafeToBreak(start, end) on the two results of syllableIterator.next(); (R-UTB/halfopen) no function flags the half-open range [start, end) and stores into the glyph at index end. That the marked range is the right one beyond these clauses, and the script shapers' joining and reordering decisions, are NOT decided.",
   note="R-UTB/must is path-insensitive apart from cutting loop back edges; one instance (applyGPOS/next) is decided by reading and listed with its reason; R-MINCL is anchored on setGlyphFlags/findMinCluster/infosSetGlyphFlags and is undecided (exit 2) if their shape changes",
   technique="static analysis: CFG must-follow, field-effect sets and reachability on go/ssa",
   ref="DESIGN.md §4 C18"),
